@@ -67,6 +67,25 @@ def make_cases(tier, seed, n_random=None, n_productive=None):
             pol = ["fifo", "random", "real"][(i + j) % 3]
             cases.append(dict(name=name, g=g, sr=sr, rename=["tuple", "rev"][i % 2], order=common.perm(len(g.rules), rng),
                               pop=pol, maxlen=0))
+        if corpus or i % 10 == 0:
+            # the log semiring exists for weights far below the double precision of probabilities: every rule weight scaled by 1e-9
+            # (totals down to 1e-40); its convergence test is relative (a distance between scores), so these totals must come out
+            # to the same relative precision (strengthened after seeded change C08-8)
+            from fractions import Fraction
+            cases.append(dict(name=name + "#tiny", g=g.map_weights(lambda w: w * Fraction(1, 10**9)), sr="Log", rename="id", order=None, pop="real",
+                              maxlen=2))
+    # a convergent system that needs ~16 000 sweeps of the naive evaluator and tens of thousands of agenda pops: a ring of 60
+    # nonterminals whose lap weight is 0.9 (strengthened after seeded changes C08-7 and C20-6)
+    from fractions import Fraction as F
+    from vlib.spec.cfgspec import G
+    K = 60
+    ring = []
+    for i in range(K - 1, -1, -1):
+        ring.append((F(9, 10) if i == 0 else F(1), f"N{i}", (f"N{(i + 1) % K}",) if i % 2 else ("a", f"N{(i + 1) % K}")))
+        ring.append((F(1, 10), f"N{i}", ("b",)))
+    gr = G("N0", frozenset("ab"), ring)
+    for sr in ("Float", "Real"):
+        cases.append(dict(name="ring60", g=gr, sr=sr, rename="id", order=None, pop="real", maxlen=0))
     return cases
 
 
@@ -142,6 +161,10 @@ def check_case(case):
         sr = "Float"                    # Fractions blow up inside the fixed-point iteration of a nonlinear block
         R, _, conv, val = bridge.SEMIRINGS[sr]
     abs_tol = 0.0 if sr == "Boolean" else max(1e-9, 1e-10 * amp)
+    if sr == "Log" and case["name"].endswith("#tiny"):
+        # the log semiring's own convergence test is a distance between SCORES (relative in probability space): totals of 1e-30 must
+        # be right to the same relative precision, so no absolute slack here (relative 1e-8 * amplification as everywhere)
+        abs_tol = 0.0
     f = common.renamer(case["rename"]) or (lambda x: x)
     desc = dict(grammar=bridge.fmt_grammar(g), semiring=sr, rename=case["rename"], order=case["order"], pop=case["pop"])
 
